@@ -9,7 +9,7 @@ EXTRA = {  # other checks that were run against a seeded change here (property -
 for res in sorted(glob.glob(os.path.join(RES, 'C??-*.txt'))):
     tag = os.path.basename(res)[:-4]
     prop, n = tag.split('-')
-    src = f'/tmp/seed{n[0]}-{prop}/SEED/{n[1:]}' if n[0] in 'bcdefghi' else f'/tmp/seed-{prop}/SEED/{n}'
+    src = f'/tmp/seed{n[0]}-{prop}/SEED/{n[1:]}' if n[0] in 'bcdefghij' else f'/tmp/seed-{prop}/SEED/{n}'
     dst = os.path.join(ROOT, 'seeded', tag)
     txt = open(res).read()
     m_demo = re.search(r'demo_changed_exit=(\d+) demo_unchanged_exit=(\d+)', txt)
